@@ -502,6 +502,12 @@ class ReadProtocol(_DeviceIdFilterMixin, _BaseProtocol):
         """
         super().connection_made(transport)
 
+        # a read-only transport may still know the active gateway (e.g. MQTT topic)
+        if self._active_hgi is None and (
+            hgi_id := transport.get_extra_info(SZ_ACTIVE_HGI)
+        ):
+            self._set_active_hgi(hgi_id)
+
     def resume_writing(self) -> None:
         raise NotImplementedError(f"{self}: The chosen Protocol is Read-Only")
 
